@@ -11,7 +11,7 @@ use crate::interp::UNTIMED;
 use crate::oracle::{self, Verdict, Violation};
 use crate::props::{assumptions_common, outcome, scale_cases, KNOWN_SIZE, WRAPPED};
 use crate::sched::{run_sched, run_sched_with, unmodelled_sync, DfsChooser};
-use crate::seq::run_seq;
+use crate::sched::run_seq_e1 as run_seq;
 
 pub fn assumptions_sched() -> Vec<String> {
     let mut a = assumptions_common();
@@ -166,7 +166,7 @@ pub fn judge_c03(h: &History) -> Outcome {
         if let Res::Chunk { announced, .. } = &o.res {
             if *announced < o.requested() {
                 if h.ops.iter().any(|p| {
-                    matches!(p.tag, Tag::Next | Tag::NextIdVal) && p.call != UNTIMED && (overlaps(o, p) || (h.case.sched.is_empty() && p.thread != o.thread))
+                    matches!(p.tag, Tag::Next | Tag::NextIdVal) && p.call != UNTIMED && (overlaps(o, p) || (h.sched.sequential && p.thread != o.thread))
                 }) {
                     b = true;
                 }
@@ -225,7 +225,7 @@ pub fn judge_c04(h: &History) -> Outcome {
     if concurrent {
         cl.push("concurrent-pair");
     }
-    let nontrivial = if h.case.sched.is_empty() && h.sched.events == 0 {
+    let nontrivial = if h.sched.sequential {
         // sequential engine: mixed operations up to and past the end
         crate::props::distinct_tags(h) >= 2 && h.ops.len() >= 3
     } else {
@@ -297,7 +297,7 @@ pub fn judge_c06(h: &History) -> Outcome {
     if first_skip_ret.is_some() && delivered_before == 0 {
         cl.push("skip-before-any-delivery");
     }
-    let seq = h.case.sched.is_empty() && h.sched.events == 0;
+    let seq = h.sched.sequential;
     let nontrivial = if seq {
         first_skip_ret.is_some() && after >= 1
     } else {
@@ -402,7 +402,16 @@ pub fn judge_c11_quiescent(h: &History) -> Outcome {
 }
 
 pub fn judge_c12(h: &History) -> Outcome {
-    let verdict = if undecided(h) { Ok(()) } else { oracle::c12_for_each_fold(h) };
+    let verdict = if h.sched.hang {
+        Err(Violation {
+            what: "hang",
+            detail: "a for_each / enumerate_for_each / fold call (or a direct pull next to it) never returns: every unfinished thread spins on unchanged memory".into(),
+        })
+    } else if h.sched.step_bound_hit {
+        Ok(())
+    } else {
+        oracle::c12_for_each_fold(h)
+    };
     let mut sizes = std::collections::HashSet::new();
     let mut composite_threads = 0;
     for t in &h.case.threads {
@@ -446,7 +455,41 @@ pub fn judge_c18(h: &History) -> Outcome {
             FaultSite::Closure => "site=closure",
         });
     }
-    finish(h, verdict, fired && h.sched.waiters_at_fault > 0, cl)
+    let seq = h.sched.sequential;
+    let later_ops = h.ops.iter().any(|o| o.is_pull() && !matches!(o.res, Res::Panicked(_))) && h.case.threads.len() >= 2;
+    finish(h, verdict, fired && (h.sched.waiters_at_fault > 0 || (seq && later_ops)), cl)
+}
+
+pub fn judge_c08(h: &History) -> Outcome {
+    let verdict = if undecided(h) {
+        Ok(())
+    } else {
+        panic_guard(h).and_then(|_| oracle::c08_exactly_once_ownership(h))
+    };
+    let unconsumed_chunk = h.ops.iter().any(|o| matches!(&o.res, Res::Chunk { announced, items, .. } if items.len() < *announced));
+    let (pos, skipped) = crate::props::cursor(h);
+    let undelivered = skipped || pos < h.info.len as u128;
+    let skips = h.ops.iter().filter(|o| o.tag == Tag::Skip).count();
+    let mut cl = sched_classes(h);
+    if unconsumed_chunk {
+        cl.push("unconsumed-chunk-part");
+    }
+    if skips >= 2 {
+        cl.push("several-skips");
+    }
+    cl.push(if matches!(h.case.terminal, Terminal::Drop) { "ends-in-drop" } else { "ends-in-into_seq" });
+    let nontrivial = h.case.threads.len() >= 2 && h.sched.switches >= 1 && (undelivered || unconsumed_chunk);
+    finish(h, verdict, nontrivial, cl)
+}
+
+pub fn judge_c10(h: &History) -> Outcome {
+    let verdict = if undecided(h) {
+        Ok(())
+    } else {
+        panic_guard(h).and_then(|_| oracle::c10_into_seq(h))
+    };
+    let nontrivial = h.case.threads.len() >= 2 && h.sched.switches >= 1 && matches!(h.term, crate::history::TermRes::Seq { .. }) && threads_delivering(h) >= 1;
+    finish(h, verdict, nontrivial, sched_classes(h))
 }
 
 // ------------------------------------------------------------------------------------------------
@@ -470,10 +513,51 @@ evals! {
     eval_c05, eval_c05_seq, eval_c05_dfs => judge_c05;
     eval_c06, eval_c06_seq, eval_c06_dfs => judge_c06;
     eval_c07, eval_c07_seq, eval_c07_dfs => judge_c07;
+    eval_c08, eval_c08_seq_unused, eval_c08_dfs => judge_c08;
+    eval_c10, eval_c10_seq_unused, eval_c10_dfs => judge_c10;
     eval_c09, eval_c09_seq, eval_c09_dfs => judge_c09;
     eval_c11, eval_c11_seq_unused, eval_c11_dfs => judge_c11_racing;
     eval_c12, eval_c12_seq, eval_c12_dfs => judge_c12;
     eval_c18, eval_c18_seq, eval_c18_dfs => judge_c18;
+}
+
+/// C13 under the schedule engine: adaptor and underlying iterator run the same program under the same
+/// schedule (element clones are not yield points here, so both see identical yield-point sequences).
+pub fn eval_c13(case: &Case) -> Outcome {
+    crate::hooks::set_clone_yields(false);
+    let ha = run_sched(case);
+    let mut ucase = case.clone();
+    ucase.kind = case.kind.underlying();
+    let hu = run_sched(&ucase);
+    crate::hooks::set_clone_yields(true);
+    let verdict = if undecided(&ha) || undecided(&hu) {
+        if ha.sched.hang != hu.sched.hang {
+            Err(Violation {
+                what: "end-or-skip-differs",
+                detail: format!("under the same schedule the adaptor {} and the underlying iterator {}", if ha.sched.hang { "hangs" } else { "completes" }, if hu.sched.hang { "hangs" } else { "completes" }),
+            })
+        } else {
+            Ok(())
+        }
+    } else {
+        let mut a = ha.clone();
+        let mut u = hu.clone();
+        a.ops.sort_by_key(|o| o.thread);
+        u.ops.sort_by_key(|o| o.thread);
+        crate::lockstep::compare(&a, &u)
+    };
+    let has = |f: &dyn Fn(&Tag) -> bool| ha.ops.iter().any(|o| f(&o.tag));
+    let chunk = has(&|t| matches!(t, Tag::Chunk { .. } | Tag::BufNext { .. }));
+    let skip = has(&|t| matches!(t, Tag::Skip));
+    let mut cl = sched_classes(&ha);
+    cl.push(case.kind.name());
+    if skip {
+        cl.push("skip");
+    }
+    let nontrivial = case.threads.len() >= 2 && ha.sched.switches >= 1 && (chunk || skip);
+    let mut o = finish(&ha, verdict, nontrivial, cl);
+    o.evals = 2;
+    o
 }
 
 pub fn eval_c11_seq(case: &Case) -> Outcome {
@@ -721,6 +805,7 @@ pub fn check(ctx: &mut Ctx) -> Option<Meta> {
             "E1 histories (as C01, drains optional) + E2 sequential histories; oracle: every (index, value) pair returned by next_id_and_value, chunk begin+offset, ids_and_values and enumerate_for_each equals the source element at that index (value, identity, address for references); non-trivial = indexed delivery with a short or partly consumed chunk under >=2 delivering threads and >=1 switch, or >=2 released waiters".into(),
             vec![
                 Plan { name: "sched-index", cfg: { let mut c = cfg_e1(t); c.w_drain_composite = 1; c.w_drain_elem = 2; c }, eval: eval_c02, quick: 40_000, thorough_factor: 50 },
+                Plan { name: "sched-index-after-panic", cfg: { let mut c = cfg_e1(t); c.kinds = WRAPPED.to_vec(); c.kinds.extend_from_slice(&[Kind::ClonedSlice, Kind::VecOwn]); c.fault_sites = vec![FaultSite::ProbeNext, FaultSite::ProbeNext, FaultSite::Clone, FaultSite::Closure]; c.w_drain_composite = 1; c.w_drain_elem = 2; c.min_threads = 2; c }, eval: eval_c02, quick: 20_000, thorough_factor: 50 },
                 Plan { name: "seq-index", cfg: seq_of({ let mut c = cfg_e1(t); c.w_drain_composite = 1; c }, t), eval: eval_c02_seq, quick: 60_000, thorough_factor: 30 },
             ],
         ),
@@ -744,6 +829,9 @@ pub fn check(ctx: &mut Ctx) -> Option<Meta> {
             vec![
                 Plan { name: "sched-past-end", cfg: cfg_c05(t), eval: eval_c05, quick: 40_000, thorough_factor: 50 },
                 Plan { name: "seq-past-end", cfg: seq_of(cfg_c05(t), t), eval: eval_c05_seq, quick: 100_000, thorough_factor: 50 },
+                // the end can also be reached because the wrapped iterator panicked: still permanent, lengths still not positive
+                Plan { name: "sched-past-end-after-panic", cfg: { let mut c = cfg_c05(t); c.kinds = WRAPPED.to_vec(); c.fault_sites = vec![FaultSite::ProbeNext]; c.w_len = 3; c.w_has = 3; c.extra_after_end = 12; c }, eval: eval_c05, quick: 20_000, thorough_factor: 50 },
+                Plan { name: "seq-past-end-after-panic", cfg: seq_of({ let mut c = cfg_c05(t); c.kinds = WRAPPED.to_vec(); c.fault_sites = vec![FaultSite::ProbeNext]; c.w_len = 3; c.w_has = 3; c.extra_after_end = 12; c }, t), eval: eval_c05_seq, quick: 40_000, thorough_factor: 50 },
             ],
         ),
         "C06" => (
@@ -761,11 +849,31 @@ pub fn check(ctx: &mut Ctx) -> Option<Meta> {
                 Plan { name: "sched-dfs-probe", cfg: { let mut c = cfg_small(WRAPPED); c.w_skip = 1; c }, eval: eval_c07_dfs, quick: dfsq, thorough_factor: 60 },
             ],
         ),
+        "C08" => (
+            "E1 part: consuming kinds (Vec, [T;N], owning wrapped iterator) under generated schedules with pulls, partial chunk consumption, buffered pulls and concurrent skip_to_end calls, ending in drop or into_seq_iter; oracle: identity ledger (every element dropped exactly once, never while owned, at most one owner); non-trivial = >=2 threads, >=1 context switch and an undelivered part, skip or unconsumed chunk part".into(),
+            vec![
+                Plan { name: "sched-ledger", cfg: { let mut c = GenCfg::base(crate::props::CONSUMING); c.max_len = if t { 16 } else { 8 }; c.min_threads = 2; c.max_threads = 4; c.max_ops = 4; c.w_skip = 3; c.terminal_mode = 2; c.sched_len = if t { 300 } else { 120 }; c }, eval: eval_c08, quick: 40_000, thorough_factor: 50 },
+                Plan { name: "sched-dfs-ledger", cfg: { let mut c = cfg_small(crate::props::CONSUMING); c.w_skip = 4; c.terminal_mode = 2; c }, eval: eval_c08_dfs, quick: dfsq, thorough_factor: 60 },
+            ],
+        ),
+        "C13" => (
+            "E1 part: every adaptor kind and its underlying iterator run the same generated multi-threaded program under the same generated schedule (clones are not yield points, so both executions see the same yield-point sequence); oracle: thread by thread identical results (indices, chunk boundaries, lengths, end / skip behaviour, elements), remainder, source intact; non-trivial = >=2 threads, >=1 context switch and a chunk pull or skip".into(),
+            vec![
+                Plan { name: "sched-lockstep", cfg: { let mut c = GenCfg::base(crate::props::ADAPTORS); c.kinds.extend_from_slice(&[Kind::ClonedIterRef, Kind::CopiedIterRef, Kind::ClonedIterRef, Kind::CopiedIterRef]); c.max_len = if t { 16 } else { 8 }; c.min_threads = 2; c.max_threads = 4; c.max_ops = 4; c.w_skip = 3; c.w_len = 1; c.w_has = 1; c.terminal_mode = 2; c.sched_len = if t { 300 } else { 160 }; c }, eval: eval_c13, quick: 30_000, thorough_factor: 50 },
+            ],
+        ),
+        "C10" => (
+            "E1 part: all kinds used concurrently under generated schedules (incl. skips), joined, then into_seq_iter; same remainder oracle as the sequential part; non-trivial = >=2 threads, >=1 context switch, >=1 delivery before the conversion".into(),
+            vec![
+                Plan { name: "sched-into_seq", cfg: { let mut c = cfg_e1(t); c.w_skip = 1; c.terminal_mode = 1; c.min_threads = 2; c }, eval: eval_c10, quick: 30_000, thorough_factor: 50 },
+            ],
+        ),
         "C09" => (
             "E1 histories: wrapped iterators under the fair scheduler (no reachable all-waiting state), known-size kinds with one thread suspended forever at a generated yield point (the others must finish without a single spin-wait episode); non-trivial = wrapped: >=1 waiting episode observed; known-size: the suspension point lies inside an operation and >=2 other threads are active".into(),
             vec![
                 Plan { name: "sched-progress-wrapped", cfg: cfg_c09(t, false), eval: eval_c09, quick: 25_000, thorough_factor: 50 },
                 Plan { name: "sched-lockfree-known-size", cfg: cfg_c09(t, true), eval: eval_c09, quick: 25_000, thorough_factor: 50 },
+                Plan { name: "sched-progress-after-panic", cfg: { let mut c = cfg_c09(t, false); c.fault_sites = vec![FaultSite::ProbeNext, FaultSite::ProbeNext, FaultSite::Closure]; c }, eval: eval_c09, quick: 15_000, thorough_factor: 50 },
                 Plan { name: "sched-dfs-progress", cfg: { let mut c = cfg_small(WRAPPED); c.w_skip = 1; c }, eval: eval_c09_dfs, quick: dfsq, thorough_factor: 60 },
             ],
         ),
@@ -824,6 +932,9 @@ pub fn eval_for(prop: &str, engine: &str) -> Option<fn(&Case) -> Outcome> {
         ("C06", false) => eval_c06,
         ("C06", true) => eval_c06_seq,
         ("C07", _) => eval_c07,
+        ("C08", false) => eval_c08,
+        ("C10", false) => eval_c10,
+        ("C13", false) => eval_c13,
         ("C09", _) => eval_c09,
         ("C11", false) => eval_c11,
         ("C11", true) => eval_c11_seq,
